@@ -26,7 +26,7 @@ def _int_paths(obj, prefix=()):
     out = []
     if isinstance(obj, dict):
         for k in sorted(obj):
-            if k.startswith("_") or k in ("seed", "run", "format", "vseed"):
+            if k.startswith("_") or k in ("seed", "run", "format", "vseed", "dseed", "attempts"):
                 continue
             out += _int_paths(obj[k], prefix + (k,))
     elif isinstance(obj, list):
